@@ -12,10 +12,11 @@ META = {
 }
 
 RULES = ["pre158", "eip158", "cancun", "amsterdam"]
+TOUCHOPS = '{"BeginTx", "AddBalance", "SubBalance", "CreateAccount", "EvmCreate", "Snapshot", "Revert", "Finalise"}'
 ALLOPS = '{"BeginTx", "AddBalance", "SubBalance", "SetBalance", "SetNonce", "SetCode", "SetState", "SelfDestruct", "CreateAccount", "EvmCreate", "Snapshot", "Revert", "Finalise"}'
 
 
-def edges_cfg(ctx, rules, bases, ripemd, name):
+def edges_cfg(ctx, rules, bases, ripemd, name, ops=None, maxsnap=1):
     """MC config whose every transition is printed (full states, so that paths can be rebuilt)."""
     p = os.path.join(ctx.scratch, name + ".cfg")
     with open(p, "w") as f:
@@ -27,7 +28,7 @@ CONSTANTS NA = 1
           MaxBal = 1
           MaxNonce = 1
           MaxCode = 1
-          MaxSnap = 1
+          MaxSnap = %d
           MaxTx = 1
           MaxLogs = 0
           MaxRefund = 0
@@ -41,7 +42,7 @@ INVARIANTS InvType InvRevert InvFinalise InvFeasible
 ACTION_CONSTRAINT Edge
 VIEW View
 CHECK_DEADLOCK FALSE
-""" % (ripemd, ALLOPS, ", ".join('"%s"' % r for r in rules), ", ".join(str(b) for b in bases)))
+""" % (ripemd, maxsnap, ops or ALLOPS, ", ".join('"%s"' % r for r in rules), ", ".join(str(b) for b in bases)))
     return p
 
 
@@ -57,14 +58,17 @@ def run(ctx):
             ctx.notes.append("MCStateDB2 actions without coverage: %s" % r.zero_cov)
 
     # R (exhaustive): every edge of a TLC state graph covered by paths replayed on real StateDBs
+    # plan = (rule sets, base account kinds, Ripemd, ops, snapshot depth, max paths replayed)
     if ctx.thorough:
-        plans = [([r], [0, 2, 3], rp) for r in RULES for rp in (0,)] + [(["eip158"], [1, 3], 1), (["amsterdam"], [1, 2], 1)]
+        plans = [([r], [0, 2, 3], 0, None, 1, 0) for r in RULES] + [(["eip158"], [1, 3], 1, None, 1, 0), (["amsterdam"], [1, 2], 1, None, 1, 0)]
     else:
         r = RULES[ctx.seed % 4]
-        plans = [([r], [0, 3] if r in ("pre158", "eip158") else [0, 2, 3], 0)]
-        plans.append(([RULES[1 + ctx.seed % 3]], [1, 2], 1))      # 0x03 touch quirk needs EIP-158 rules
-    for i, (rules, bases, ripemd) in enumerate(plans):
-        cfg = edges_cfg(ctx, rules, bases, ripemd, "edges%d" % i)
+        plans = [([r], [0, 3] if r in ("pre158", "eip158") else [0, 2, 3], 0, None, 1, 4000)]
+    # the zero-value touch of 0x03 that survives reverts: small graph (touch-relevant operations, two nested
+    # snapshots, EIP-158 rule sets), always replayed completely
+    plans.append((RULES[1:] if ctx.thorough else [RULES[1 + ctx.seed % 3]], [0, 1, 2], 1, TOUCHOPS, 2, 0))
+    for i, (rules, bases, ripemd, ops, maxsnap, maxpaths) in enumerate(plans):
+        cfg = edges_cfg(ctx, rules, bases, ripemd, "edges%d" % i, ops, maxsnap)
         res = ctx.model_check("state/MCStateDB", cfg, tags=("EDGE",), timeout=ctx.pick(1800, 3600),
                               name="MCStateDBEdges[%s,ripemd=%d]" % (",".join(rules), ripemd), workers=4)
         edges = res.lines.get("EDGE", [])
@@ -73,7 +77,7 @@ def run(ctx):
         ep = os.path.join(ctx.scratch, "edges%d.json" % i)
         write_json(ep, edges)
         del edges, res
-        ctx.drive(drv, ["-mode", "paths", "-in", ep, "-ripemd", ripemd, "-maxpaths", ctx.pick(4000, 0)],
+        ctx.drive(drv, ["-mode", "paths", "-in", ep, "-ripemd", ripemd, "-maxpaths", maxpaths],
                   name="c13-paths[%s]" % ",".join(rules), timeout=ctx.pick(1800, 7200))
         os.remove(ep)
 
